@@ -4,6 +4,7 @@ import (
 	"encoding/json"
 	"fmt"
 	"os"
+	"path/filepath"
 	"sort"
 )
 
@@ -52,6 +53,9 @@ func (c *Ctx) Quick() bool { return c.Tier != "thorough" }
 // /repo's current tree, so generated code is regenerated) and runs the saved values through the
 // natively compiled harness. Exit 1 if the failure reproduces, 0 if it does not.
 func ReplayFileCmd(path string) int {
+	if abs, err := filepath.Abs(path); err == nil {
+		path = abs
+	}
 	b, err := os.ReadFile(path)
 	if err != nil {
 		fmt.Println(err)
